@@ -147,6 +147,7 @@ def _const(data, dtype, kind):
 DIRECTED = [
     {"op": "det", "operands": [_const([[0, 1], [2, 1]], "uint8", "int")], "kw": {}},
     {"op": "det", "operands": [_const([[3, 3, 0], [0, 3, 3], [3, 0, 3]], "int8", "int")], "kw": {}},
+    {"op": "prod", "operands": [_const([[-2, 3, 3], [3, 3, 2]], "int8", "int")], "kw": {}},
     {"op": "floor_divide", "operands": [_const([7, 9, 100], "int32", "int"),
                                         _const([2, 3, 7], "int32", "int")], "kw": {}},
     {"op": "floor_divide", "operands": [_const([60000.0, 33333.0], "float16", "float"),
